@@ -93,6 +93,14 @@ func init() {
 			// a client that has stopped reading: the broker's writer is blocked when the connection has to end
 			return &sessCase{Stalled: 3}
 		}
+		if i%30 == 3 {
+			// a DISCONNECT that is itself a protocol error does not suppress the Will
+			return &sessCase{Stalled: 9}
+		}
+		if i%30 == 9 || i%30 == 19 || i%30 == 27 {
+			// a Will with RETAIN=1, published at connection end / by the delay timer / at start-up
+			return &sessCase{Stalled: 6 + (i%30)/10}
+		}
 		c := &sessCase{Preempt: true}
 		if i%10 == 6 {
 			restartWithPendingWill(r, c)
